@@ -107,6 +107,14 @@ def h_match(eng, case):
     except Exception as e:
         eng.fail('checker-builds', exc_sig(e), repr(e)[:150])
         return
+    if case.get('twice'):
+        # the same checker object answers an earlier query first (its verdicts must not leak into the next one)
+        first = sym_name(eng, case, 'm')
+        try:
+            impl_matches(eng, checker, first)
+        except Exception as e:
+            eng.fail('match-no-exception', exc_sig(e), repr(e)[:150])
+            return
     # reference first (it decides whether the path is inside the claim)
     rname = list(name)
     if rname:
@@ -170,4 +178,7 @@ def cases(tier, seed):
                     continue
                 cs.append(('match', {'schema': key, 'text': text, 'shape': sh, 'reload': reload},
                            {'weight': 1 + len(sh) ** 2}))
+                if '$' in text and not reload and 2 <= len(sh) <= 3 and 't' not in sh and 2 not in sh:
+                    cs.append(('match', {'schema': key, 'text': text, 'shape': sh, 'reload': reload, 'twice': True},
+                               {'weight': 1 + len(sh) ** 4}))
     return cs
